@@ -171,6 +171,7 @@ func ruleFilterOps(r *Report) {
 		})
 		h.Check(ok, "(*column.Txn).WithUnion/op", r.P.Pos(fn.Pos()), "scratch zeroed per block, Or of every column, then selection And scratch", "WithUnion does not compute selection ∧ (c1 ∨ c2 ∨ …) per block with a scratch bitmap that is reset for every block")
 	}
+	ruleValueFilterOp(r)
 	// value filters clear on missing / wrong kind
 	for _, name := range []string{"(*column.Txn).WithValue", "(*column.Txn).WithFloat", "(*column.Txn).WithInt", "(*column.Txn).WithUint", "(*column.Txn).WithString"} {
 		fn := r.Anchor(name)
